@@ -31,7 +31,7 @@ func NewExponentialAverageMeasurement(
 func (m *ExponentialAverageMeasurement) Add(value float64) (float64, bool) {
 	m.mu.Lock()
 	defer m.mu.Unlock()
-	if m.count < m.warmupWindow {
+	if m.count < m.warmupWindow || m.count == 0 {
 		m.count++
 		m.sum += value
 		m.value = m.sum / float64(m.count)
